@@ -799,7 +799,7 @@ func FindURLIndex(b []byte) int {
 			break
 		}
 	}
-	if i == 1 || i > 33 || i >= len(b) {
+	if i == 1 || i > 32 || i >= len(b) {
 		return -1
 	}
 	if b[i] != ':' {
